@@ -8,7 +8,7 @@ open Miller Miller.Verbs Driver.Verbs
 def parseSort : List String → List Bytes → List SortKind → Option (List Bytes × List SortKind)
   | [], fs, ks => if fs.isEmpty then none else some (fs, ks)
   | "-f" :: v :: rest, fs, ks => let l := fieldsOf v; parseSort rest (fs ++ l) (ks ++ l.map fun _ => .lexAsc)
-  | "-r" :: "-t" :: v :: rest, fs, ks => let l := fieldsOf v; parseSort rest (fs ++ l) (ks ++ l.map fun _ => .natural)
+  | "-r" :: "-t" :: v :: rest, fs, ks => let l := fieldsOf v; parseSort rest (fs ++ l) (ks ++ l.map fun _ => .natAsc)
   | "-r" :: v :: rest, fs, ks => let l := fieldsOf v; parseSort rest (fs ++ l) (ks ++ l.map fun _ => .lexDesc)
   | "-nf" :: v :: rest, fs, ks => let l := fieldsOf v; parseSort rest (fs ++ l) (ks ++ l.map fun _ => .numAsc)
   | "-nr" :: v :: rest, fs, ks => let l := fieldsOf v; parseSort rest (fs ++ l) (ks ++ l.map fun _ => .numDesc)
@@ -17,8 +17,8 @@ def parseSort : List String → List Bytes → List SortKind → Option (List By
   | "-n" :: v :: rest, fs, ks => let l := fieldsOf v; parseSort rest (fs ++ l) (ks ++ l.map fun _ => .numAsc)
   | "-c" :: "-r" :: v :: rest, fs, ks => let l := fieldsOf v; parseSort rest (fs ++ l) (ks ++ l.map fun _ => .foldDesc)
   | "-c" :: v :: rest, fs, ks => let l := fieldsOf v; parseSort rest (fs ++ l) (ks ++ l.map fun _ => .foldAsc)
-  | "-t" :: "-r" :: v :: rest, fs, ks => let l := fieldsOf v; parseSort rest (fs ++ l) (ks ++ l.map fun _ => .natural)
-  | "-t" :: v :: rest, fs, ks => let l := fieldsOf v; parseSort rest (fs ++ l) (ks ++ l.map fun _ => .natural)
+  | "-t" :: "-r" :: v :: rest, fs, ks => let l := fieldsOf v; parseSort rest (fs ++ l) (ks ++ l.map fun _ => .natAsc)
+  | "-t" :: v :: rest, fs, ks => let l := fieldsOf v; parseSort rest (fs ++ l) (ks ++ l.map fun _ => .natDesc)
   | _, _, _ => none
 
 /-- `sortv <argv> <records> | <records out>`: the output must satisfy the relational spec. -/
@@ -32,9 +32,12 @@ def sortv : Handler
       | some (fs, ks) =>
         match Rec.parseList impl with
         | some out =>
-          -- natsort (-t) is outside the model: the order is only checked on the keys that precede the
-          -- first natural-order key
-          let ksChecked := ks.takeWhile (· != SortKind.natural)
+          -- natsort's Compare is not a preorder on every set of strings: when the comparator chain is
+          -- inconsistent on the key values present, the order is only checked on the keys that
+          -- precede the first natural-order key
+          let isNat (k : SortKind) : Bool := k == SortKind.natAsc || k == SortKind.natDesc
+          let present := (rs.filterMap (keyVals fs)).eraseDups
+          let ksChecked := if consistentOn ks present then ks else ks.takeWhile (fun k => !isNat k)
           if sortRel fs ksChecked rs out then pure { model := impl }
           else
             let canon := Rec.showList (sortCanonical fs ks rs)
@@ -44,7 +47,7 @@ def sortv : Handler
   | _, _ => none
 
 def kindOf : String → Option SortKind
-  | "lex" => some .lexAsc | "num" => some .numAsc | "fold" => some .foldAsc | _ => none
+  | "lex" => some .lexAsc | "num" => some .numAsc | "fold" => some .foldAsc | "nat" => some .natAsc | _ => none
 
 /-- `cmp <kind> <a> <b> | <-1|0|1>` -/
 def cmp : Handler
@@ -73,14 +76,28 @@ def dslsort : Handler
     -- strip the trailing newline of print
     let outText := if outText.getLast? == some 10 then outText.dropLast else outText
     let out := if items.isEmpty then [] else Split.split [59] outText
-    let kind : SortKind :=
-      if flags.contains 't' then .natural
-      else if flags.contains 'c' then (if flags.contains 'r' then .foldDesc else .foldAsc)
-      else if flags.contains 'f' then (if flags.contains 'r' then .lexDesc else .lexAsc)
-      else (if flags.contains 'r' then .numDesc else .numAsc)
+    -- decodeSortFlags: the LAST of n/f/c/t wins; r anywhere reverses
+    let ty : Char := flags.toList.foldl (fun t c => if c == 'n' || c == 'f' || c == 'c' || c == 't' then c else t) 'n'
+    let rev := flags.contains 'r'
     let recOf (l : List Bytes) : List Rec := l.map fun v => [(str "v", v)]
     let perm := isPermOf (recOf out) (recOf items)
-    let ordered := (out.zip (out.drop 1)).all fun p => cmpOf kind p.1 p.2 ≤ 0
+    let ordered :=
+      if ty == 't' then
+        -- sort.Slice with less = natsort.Compare (arguments swapped for r); equal texts are ties.
+        -- Only when that is a strict weak order on the items present does "sorted" follow.
+        let less (a b : Bytes) : Bool := a != b && (if rev then natLess b a else natLess a b)
+        let inc (a b : Bytes) : Bool := !less a b && !less b a
+        let ds := items.eraseDups
+        let swo := ds.all (fun a => ds.all fun b => !(less a b && less b a)) &&
+          ds.all (fun a => ds.all fun b => ds.all fun c =>
+            (!(less a b && less b c) || less a c) && (!(inc a b && inc b c) || inc a c))
+        !swo || (out.zip (out.drop 1)).all fun p => !less p.2 p.1
+      else
+        let kind : SortKind :=
+          if ty == 'c' then (if rev then .foldDesc else .foldAsc)
+          else if ty == 'f' then (if rev then .lexDesc else .lexAsc)
+          else (if rev then .numDesc else .numAsc)
+        (out.zip (out.drop 1)).all fun p => cmpOf kind p.1 p.2 ≤ 0
     pure { model := impl, spec := if perm && ordered then none else some ("-", "a permutation of the items in non-decreasing order under the selected collation") }
   | _, _ => none
 
